@@ -505,7 +505,7 @@ func checkSinkProvenance(p *Program, r *Report, gates map[*types.TypeName]bool) 
 									return false
 								}
 							}
-							if why, ok := validated[f.Name()]; ok {
+							if why, ok := validated[cname(f)]; ok {
 								_ = why
 								return false
 							}
@@ -518,7 +518,7 @@ func checkSinkProvenance(p *Program, r *Report, gates map[*types.TypeName]bool) 
 						case "call":
 							name := x.CalleeName()
 							if _, ok := okCalls[name]; ok {
-								if _, isV := validated[f.Name()]; isV || name != "fmt.Sprintf" && name != "fmt.Sprint" && name != "strings.Join" && name != "(*bytes.Buffer).String" {
+								if _, isV := validated[cname(f)]; isV || name != "fmt.Sprintf" && name != "fmt.Sprint" && name != "strings.Join" && name != "(*bytes.Buffer).String" {
 									return name == "fmt.Sprint" || name == "os.Getenv" || name == "path/filepath.Join" || name == "os.DirFS" || name == "io/fs.Sub" // look into the operands of these
 								}
 								return true
@@ -528,11 +528,11 @@ func checkSinkProvenance(p *Program, r *Report, gates map[*types.TypeName]bool) 
 								if x.Fn.Name() == "String" {
 									return false
 								}
-								if _, ok := validated[f.Name()]; ok {
+								if _, ok := validated[cname(f)]; ok {
 									return false
 								}
 							}
-							if _, ok := validated[f.Name()]; ok {
+							if _, ok := validated[cname(f)]; ok {
 								return false
 							}
 							bad = append(bad, "result of "+name)
@@ -540,7 +540,7 @@ func checkSinkProvenance(p *Program, r *Report, gates map[*types.TypeName]bool) 
 						case "field":
 							return true
 						case "unknown", "load", "alloc", "freevar", "lookup", "index", "phi", "slice", "binop", "convert", "extract", "makeiface", "next", "range", "global", "unop", "typeassert", "closure", "fieldaddr", "indexaddr", "makeslice", "makemap":
-							if _, ok := validated[f.Name()]; ok {
+							if _, ok := validated[cname(f)]; ok {
 								return x.Op == "binop" || x.Op == "convert" || x.Op == "phi" || x.Op == "extract"
 							}
 							if x.Op == "binop" || x.Op == "convert" || x.Op == "phi" || x.Op == "extract" || x.Op == "field" || x.Op == "makeiface" {
